@@ -8,6 +8,7 @@ import (
 	"unsafe"
 
 	"github.com/philpearl/plenc/plenccore"
+	"github.com/philpearl/plenc/verifhook"
 )
 
 type wrappedCodecRegistry struct {
@@ -70,6 +71,7 @@ func BuildStructCodec(p CodecBuilder, registry CodecRegistry, typ reflect.Type, 
 	var count int
 	for i := range c.fields {
 		sf := typ.Field(i)
+		verifhook.At("struct.field", typ)
 
 		if !sf.IsExported() {
 			continue
@@ -135,6 +137,7 @@ func BuildStructCodec(p CodecBuilder, registry CodecRegistry, typ reflect.Type, 
 	}
 	c.fields = c.fields[:count]
 
+	verifhook.At("struct.index", typ)
 	c.fieldsByIndex = make([]shortDesc, maxIndex+1)
 	for _, f := range c.fields {
 		if c.fieldsByIndex[f.index].codec != nil {
@@ -146,6 +149,7 @@ func BuildStructCodec(p CodecBuilder, registry CodecRegistry, typ reflect.Type, 
 		}
 	}
 
+	verifhook.At("struct.publish", typ)
 	wrapped.publish()
 
 	return &c, nil
